@@ -134,6 +134,8 @@ class PhonopyAtoms:
                 DeprecationWarning,
                 stacklevel=2,
             )
+            if magnetic_moments is None:
+                magnetic_moments = magmoms
         if pbc is not None:
             warnings.warn(
                 "PhonopyAtoms.__init__ parameter of pbc is deprecated. "
